@@ -17,6 +17,7 @@ import json
 import os
 import random
 import sys
+import time
 
 from . import core
 from . import formula as F
@@ -303,6 +304,42 @@ def host_obs(lib, names, rng, quick):
 
 # ------------------------------------------------------------------ retention
 
+def process_settings():
+    """what later evaluations anywhere in the process depend on besides their parser"""
+    import decimal
+    import locale
+    import warnings
+    st = [('recursionlimit', sys.getrecursionlimit()), ('switchinterval', sys.getswitchinterval()),
+          ('int_max_str_digits', sys.get_int_max_str_digits() if hasattr(sys, 'get_int_max_str_digits') else -1),
+          ('decimal_prec', decimal.getcontext().prec), ('decimal_rounding', decimal.getcontext().rounding),
+          ('locale', locale.setlocale(locale.LC_ALL)), ('TZ', os.environ.get('TZ', '')), ('tzname', time.tzname),
+          ('float_repr_style', sys.float_repr_style), ('warning_filters', len(warnings.filters)),
+          ('stdout', type(sys.stdout).__name__), ('excepthook', sys.excepthook is sys.__excepthook__), ('gc', gc.isenabled()),
+          ('trace', sys.gettrace() is None), ('profile', sys.getprofile() is None)]
+    return ['%s=%r' % kv for kv in st]
+
+
+PROCESS_BATTERY = ['FACT(2000)&""', 'LEN(FACT(2000))', 'FACT(2000)', '2^9999&""', 'LEN(10^4000)', '"a"&10^4400', 'FACT(170)&""', '1/0', 'nosuch+1',
+                   '1+*2', 'SUM(1,"x")', '(' * 300 + '1' + ')' * 300, 'SUM(' * 200 + '1' + ')' * 200, 'TEXTJOIN(",",TRUE,FACT(1500),FACT(1600))',
+                   'YEAR("2020-02-03")', 'ROUND(2.5,0)', 'DEC2HEX(255)', 'CONCATENATE(FACT(1800),"x")', 'FACT(1800)=FACT(1800)', 'MAX(FACT(2000),1)']
+
+
+def process_obs(lib):
+    obs = []
+    for debug in (False, True):
+        p = lib.Parser(debug=debug)
+        p.set_variable('va', 10 ** 4500)
+        with quiet():
+            p.parse('1+SUM(1,2)')      # (whatever a parser sets up on its first evaluation is set up now)
+        for text in PROCESS_BATTERY + ['va&""', 'LEN(va)', 'va+1']:
+            before = process_settings()
+            with quiet():
+                p.parse(text)
+            obs.append({'kind': 'process', 'formula': text, 'debug': debug, 'settings_before': before, 'settings_after': process_settings(),
+                        'in': {'kind': 'process', 'formula': text[:80], 'debug': debug}})
+    return obs
+
+
 def census():
     gc.collect()
     gc.collect()
@@ -367,7 +404,10 @@ def main(tier, replay=None):
     run.assumptions = ['NOW, TODAY, RAND, RANDBETWEEN are not in the history/probe pools',
                        'the census is a measurement (gc.get_objects after gc.collect) at N, 2N, 4N, 8N evaluations; TLA+ states '
                        'the bound: growth between the later points is at most Slack objects, independent of N',
-                       'debug output is captured and discarded']
+                       'debug output is captured and discarded',
+                       'interpreter settings (recursion limit, integer-to-text digit limit, decimal context, locale, time zone, ...) are '
+                       'compared around single evaluations after a first evaluation on that parser: a setting an evaluation leaves '
+                       'changed is one that later outcomes of any parser depend on']
     quick = tier == 'quick'
     if replay:
         case = json.load(open(replay))['case']
@@ -424,7 +464,7 @@ def main(tier, replay=None):
     for debug in (False, True):
         add(['stamina'], debug)
     flush(force=True)
-    obs = host_obs(lib, names, rng, quick) + census_obs(lib, quick)
+    obs = host_obs(lib, names, rng, quick) + process_obs(lib) + census_obs(lib, quick)
     for n, o in enumerate(obs, 1):
         o['id'] = n
     run.extra['host_observations'] = sum(1 for o in obs if o['kind'] == 'host')
